@@ -351,8 +351,41 @@ fn plan_topn(
     // Merge-stage ORDER BY may only use columns the partial rows carry:
     // output aliases/columns or ordinals.
     let mut final_order = Vec::with_capacity(ol.order_by.len());
+    // Select items line up with `output_names` only up to the first wildcard.
+    let explicit_prefix = select
+        .projection
+        .iter()
+        .take_while(|item| {
+            matches!(
+                item,
+                sa::SelectItem::UnnamedExpr(_) | sa::SelectItem::ExprWithAlias { .. }
+            )
+        })
+        .count();
+    // Another select item already owns this output name (`a.k` or `.. AS k`), so a
+    // qualified sort key ending in it (`b.k`) is a different column.
+    let named_by_another_item = |name: &str, key: &sa::Expr| {
+        select.projection.iter().any(|item| match item {
+            sa::SelectItem::ExprWithAlias { expr, alias } => alias.value == name && expr != key,
+            sa::SelectItem::UnnamedExpr(e @ sa::Expr::CompoundIdentifier(parts)) => {
+                e != key && parts.last().map(|p| p.value == name).unwrap_or(false)
+            }
+            _ => false,
+        })
+    };
     for o in &ol.order_by {
+        // A sort key that IS a select item sorts by that item's output column
+        // (`SELECT a.k, b.k AS bk .. ORDER BY b.k` sorts by "bk", not by "k").
+        let as_output = select.projection[..explicit_prefix]
+            .iter()
+            .position(|item| match item {
+                sa::SelectItem::UnnamedExpr(e) => *e == o.expr,
+                sa::SelectItem::ExprWithAlias { expr, .. } => *expr == o.expr,
+                _ => false,
+            })
+            .filter(|i| *i < output_names.len());
         let name = match &o.expr {
+            _ if as_output.is_some() => output_names[as_output.expect("checked")].clone(),
             sa::Expr::Value(sa::ValueWithSpan {
                 value: sa::Value::Number(n, _),
                 ..
@@ -373,7 +406,10 @@ fn plan_topn(
             sa::Expr::CompoundIdentifier(parts)
                 if parts
                     .last()
-                    .map(|p| output_names.iter().any(|n| *n == p.value))
+                    .map(|p| {
+                        output_names.iter().any(|n| *n == p.value)
+                            && !named_by_another_item(&p.value, &o.expr)
+                    })
                     .unwrap_or(false) =>
             {
                 parts.last().expect("checked").value.clone()
